@@ -118,3 +118,131 @@ class UintSetExpr(_UintSet):
         if shape:
             b = c.fields["r"].fields["value"]
             ctx.oblige("the-bound-is-2^width", (b == 2 ** size) if is_z3(b) else z3.BoolVal(b == 2 ** size))
+
+
+class _Codec(Contract):
+    """Shared by uint_encode / uint_decode: every Expr constructor the two functions use is summarised as a constructor term
+    (class + arguments); their meaning on the AVM is the fragment catalogue's (C01: itob, btoi, getbyte, setbyte, extract_uint16/32/64, suffix)."""
+
+    def __init__(self):
+        import pyteal as pt
+        from pyteal.ast.abi import uint as U
+        from pyteal.ast.abstractvar import AbstractVar
+        self.pt, self.U, self.AbstractVar = pt, U, AbstractVar
+        self.sizes = sorted(U.SUPPORTED_UINT_SIZES)
+        if self.sizes != [8, 16, 32, 64]:
+            raise Unsupported(f"SUPPORTED_UINT_SIZES is {self.sizes}")
+        self.raises_only = ()
+        self.fields, self.var_kinds, self.loops = {}, {}, {}
+        self.callees = {
+            AbstractVar.__dict__["store"]: lambda I, args, kwargs: stamp(SObj(pt.ScratchStore, {"var": args[0], "value": args[1]})),
+            AbstractVar.__dict__["load"]: lambda I, args, kwargs: stamp(SObj(pt.ScratchLoad, {"var": args[0]})),
+        }
+        for name in ("Int", "Bytes", "Itob", "Btoi", "Suffix", "SetByte", "GetByte", "ExtractUint16", "ExtractUint32", "ExtractUint64"):
+            self.callees[getattr(pt, name)] = (lambda n: lambda I, args, kwargs: stamp(SObj(getattr(pt, n), {"ctor": n, "args": list(args)})))(name)
+
+    fork_size = _UintSet.fork_size
+
+    @staticmethod
+    def is_ctor(x, name, n):
+        return isinstance(x, SObj) and x.fields.get("ctor") == name and len(x.fields["args"]) == n
+
+    @staticmethod
+    def same(x, ref):
+        """x is the reference `ref` (the interpreter may re-wrap a reference when binding an annotated parameter: compare terms)"""
+        if x is ref:
+            return z3.BoolVal(True)
+        if isinstance(x, SRef) and isinstance(ref, SRef):
+            return x.term == ref.term
+        return z3.BoolVal(False)
+
+    @staticmethod
+    def const(x):
+        """value of an Int(...) constructor term, else None"""
+        return x.fields["args"][0] if _Codec.is_ctor(x, "Int", 1) else None
+
+
+class UintEncode(_Codec):
+    """uint_encode(size, value) is the big-endian size/8-byte string of the value: the last size/8 bytes of itob(value)
+    (for one byte alternatively setbyte(0x00, 0, value), which additionally fails for values > 255)."""
+    target = "pyteal.ast.abi.uint.uint_encode"
+
+    def setup(self, ctx, I):
+        size = self.fork_size(ctx)
+        e = SRef(z3.Int("value_expr"), self.pt.Expr)
+        self.callees[("isinstance", self.pt.Expr)] = lambda I_, v, classes: False   # an expression, not a variable (that case: var.load())
+        ctx.ghost.update(size=size, e=e)
+        return {"args": [size, e]}
+
+    def post(self, ctx, I, outcome, st):
+        size, e = ctx.ghost["size"], ctx.ghost["e"]
+        if outcome[0] == "raise":
+            ctx.oblige("never-raises-for-a-supported-width", z3.BoolVal(False))
+            return
+        res = outcome[1]
+        nbytes = size // 8
+        if self.is_ctor(res, "Itob", 1):
+            ctx.oblige("itob-alone-only-for-8-bytes", z3.BoolVal(nbytes == 8 and res.fields["args"][0] is e))
+            return
+        if self.is_ctor(res, "Suffix", 2):
+            inner, k = res.fields["args"]
+            good = self.is_ctor(inner, "Itob", 1) and inner.fields["args"][0] is e and self.const(k) is not None
+            ctx.oblige("suffix-of-itob-of-the-value", z3.BoolVal(bool(good)))
+            if good:
+                kv = self.const(k)
+                ctx.oblige("suffix-starts-at-8-minus-byte-width", (kv == 8 - nbytes) if is_z3(kv) else z3.BoolVal(kv == 8 - nbytes))
+            return
+        if self.is_ctor(res, "SetByte", 3):
+            base, idx, v = res.fields["args"]
+            good = nbytes == 1 and self.is_ctor(base, "Bytes", 1) and base.fields["args"][0] == b"\x00" and self.const(idx) == 0 and v is e
+            ctx.oblige("setbyte-form-only-for-one-byte-into-a-single-zero-byte-at-index-0", z3.BoolVal(bool(good)))
+            return
+        ctx.oblige("result-is-one-of-the-three-big-endian-forms", z3.BoolVal(False))
+
+
+class UintDecode(_Codec):
+    """uint_decode(size, var, encoded, start, end, length) stores into var the big-endian integer held in the size/8 bytes of `encoded`
+    that begin at `start` (0 when start is None); for 64 bits without any index the whole string through btoi."""
+    target = "pyteal.ast.abi.uint.uint_decode"
+
+    def setup(self, ctx, I):
+        size = self.fork_size(ctx)
+        enc = SRef(z3.Int("encoded"), self.pt.Expr)
+        var = SRef(z3.Int("uint_var"), self.AbstractVar)
+        opts = []
+        for nm in ("start_index", "end_index", "length"):
+            present = z3.Bool("has_" + nm)
+            if ctx.branch(present):
+                t = z3.Int(nm)
+                ctx.assume(t >= 0)      # a real object: references encode None as -1
+                opts.append(SRef(t, self.pt.Expr))
+            else:
+                opts.append(None)
+        ctx.ghost.update(size=size, enc=enc, var=var, opts=opts)
+        return {"args": [size, var, enc] + opts}
+
+    def post(self, ctx, I, outcome, st):
+        size, enc, var, (start, end, length) = (ctx.ghost[k] for k in ("size", "enc", "var", "opts"))
+        if outcome[0] == "raise":
+            ctx.oblige("never-raises-for-a-supported-width", z3.BoolVal(False))
+            return
+        res = outcome[1]
+        ok = isinstance(res, SObj) and res.cls is self.pt.ScratchStore and res.fields["var"] is var
+        ctx.oblige("result-stores-into-the-variable", z3.BoolVal(bool(ok)))
+        if not ok:
+            return
+        v = res.fields["value"]
+        if self.is_ctor(v, "Btoi", 1):
+            ctx.oblige("btoi-of-the-whole-string-only-for-64-bits-without-any-index",
+                       z3.And(z3.BoolVal(size == 64 and start is None and end is None and length is None), self.same(v.fields["args"][0], enc)))
+            return
+        want = {8: "GetByte", 16: "ExtractUint16", 32: "ExtractUint32", 64: "ExtractUint64"}[size]
+        good = self.is_ctor(v, want, 2)
+        ctx.oblige("extraction-op-has-the-width-of-the-type-and-reads-the-encoded-string", z3.And(z3.BoolVal(bool(good)), self.same(v.fields["args"][0], enc) if good else z3.BoolVal(False)))
+        if good:
+            at = v.fields["args"][1]
+            if start is None:
+                c = self.const(at)
+                ctx.oblige("reads-at-0-when-no-start-index-is-given", z3.BoolVal(False) if c is None else ((c == 0) if is_z3(c) else z3.BoolVal(c == 0)))
+            else:
+                ctx.oblige("reads-at-the-start-index", self.same(at, start))
